@@ -78,7 +78,10 @@ class Program:
         rec = set()
         for comp in self.sccs(sorted(self.bodies)):
             if len(comp) > 1:
-                rec.update(self.owner_fn(c) for c in comp)
+                owners = {self.owner_fn(c) for c in comp}
+                if owners & set(keep):
+                    continue        # the cycle passes through an anchor that stays a call: unfolding the others terminates there
+                rec.update(owners)
             elif comp[0] in [n for n, _ in self.edges().get(comp[0], [])]:
                 rec.add(self.owner_fn(comp[0]))
         import json, os
